@@ -148,8 +148,6 @@ def client_config(issuer=ISS, client_id=CLIENT_ID, sigalg=None, allow_none=False
     }
     if sigalg is not None:
         conf["id_token_signed_response_alg"] = sigalg
-    if allow_none:
-        conf["verify_args"] = {"allow_sign_alg_none": True}
     if allow_missing_kid:
         conf["allow"] = {"missing_kid": True}
     if response_types:
@@ -170,6 +168,8 @@ def make_client(issuer=ISS, client_id=CLIENT_ID, sigalg=None, reg="static", allo
     client.do_provider_info()
     client.do_client_registration()
     ctx = client.get_context()
+    if allow_none:
+        ctx.claims.set_usage("verify_args", {"allow_sign_alg_none": True})
     if reg == "dynamic":
         # what a dynamic registration leaves behind: the registration response is kept on the context
         rr = {"client_id": client_id, "client_secret": SECRET}
